@@ -564,6 +564,8 @@ def shrink(case, bad):
             if cur[fld][i]:
                 v = list(cur[fld])
                 v[i] = 0
+                if fld == "ctx0" and not any(v) and key != "empty-context":
+                    continue          # keep the supplied Context non-empty: unambiguous witness
                 cand = dict(cur, **{fld: v})
                 if fails(cand):
                     cur = cand
@@ -731,6 +733,11 @@ def explore(ctx, cases, label=""):
         real, tags, bad = judge(case)
         ctx.case(case_text(case), sorted(tags))
         ctx.tag("mode-" + case["mode"])
+        if bad is not None:
+            k0 = key_of(case, bad)
+            if any(v["key"] == k0 for v in ctx.violations):
+                ctx.violation(k0, "", None)          # same defect class again: only counted
+                bad = None
         if bad is not None:
             small = shrink(case, bad)
             r2, _, b2 = judge(small)
